@@ -803,6 +803,8 @@ def truthy(v):
         return z3.And(z3.Not(ois_none(v)), truthy(oval(v)))
     if isinstance(ty, Tup):
         return z3.BoolVal(len(ty.elems) > 0)
+    if ty.key in ("EmptyList", "EmptyDict", "EmptySet"):
+        return z3.BoolVal(False)
     if isinstance(ty, U) and ty.name not in CTX.always_truthy:
         # an opaque value may be falsy (0, '', [], False ...): truthiness is an uninterpreted predicate of the value
         return CTX.func("truthy_" + ty.name, CTX.sort(ty), z3.BoolSort())(v.t)
